@@ -453,6 +453,7 @@ func (tree *MutableTree) Load() (int64, error) {
 
 // Returns the version number of the specific version found
 func (tree *MutableTree) LoadVersion(targetVersion int64) (int64, error) {
+	requestedVersion := targetVersion
 	firstVersion, err := tree.ndb.getFirstVersion()
 	if err != nil {
 		return 0, err
@@ -504,6 +505,10 @@ func (tree *MutableTree) LoadVersion(targetVersion int64) (int64, error) {
 		// forget the cached version range: it was derived from the residue
 		tree.ndb.resetFirstVersion(0)
 		tree.ndb.resetLatestVersion(0)
+		if requestedVersion > 0 {
+			// the caller asked for exactly that version, and it was never committed
+			return 0, ErrVersionDoesNotExist
+		}
 		return tree.LoadVersion(0)
 	}
 	if err != nil {
